@@ -173,6 +173,7 @@ type Scenario struct {
 
 	DateFormat    int
 	DivideCentury int
+	TightSplit    int  // +1 / -1: the century split sits at the edge of what keeps the dated inputs unambiguous
 	Start         Date // harvest of the pre-crop = first simulated day
 	End           Date
 	AnnualDay     int
@@ -684,7 +685,96 @@ func genWithProfile(prop string, seed uint64, idx int, r *Rng, p Profile) *Scena
 			sc.Inject = append(sc.Inject, inj)
 		}
 	}
+	tightenCenturySplit(sc, NewRng(mix(mix(seed, uint64(idx)), 1900)))
 	return sc
+}
+
+// tightenCenturySplit: in 40 % of the scenarios with a two-digit-year date format the century split is moved to the
+// edge of what keeps every dated input unambiguous: the split equals the two-digit year of the earliest date (that year
+// is then the first one read as 19xx) or exceeds the two-digit year of the latest date by one.
+func tightenCenturySplit(sc *Scenario, r *Rng) {
+	if sc.DateFormat != 0 && sc.DateFormat != 2 {
+		return
+	}
+	if !r.Bool(0.4) {
+		return
+	}
+	cLow, cHigh, ok := sc.centurySplitRange()
+	if !ok {
+		return
+	}
+	if r.Bool(0.5) {
+		sc.DivideCentury = cHigh
+		sc.TightSplit = 1
+	} else {
+		sc.DivideCentury = cLow
+		sc.TightSplit = -1
+	}
+}
+
+// refitCenturySplit: a scenario with a tight split whose dates were changed after generation keeps its split at the
+// (new) edge; called when the scenario is written to disk
+func (sc *Scenario) refitCenturySplit() {
+	if sc.TightSplit == 0 {
+		return
+	}
+	cLow, cHigh, ok := sc.centurySplitRange()
+	if !ok {
+		return
+	}
+	if sc.TightSplit > 0 {
+		sc.DivideCentury = cHigh
+	} else {
+		sc.DivideCentury = cLow
+	}
+}
+
+// centurySplitRange: the century splits that keep every dated input of the scenario unambiguous
+func (sc *Scenario) centurySplitRange() (cLow, cHigh int, ok bool) {
+	lo, hi := sc.Start.Y, sc.End.Y+2 // the run may be prolonged beyond the end date; dates derived from it
+	see := func(d Date) {
+		if d.Y == 0 {
+			return
+		}
+		if d.Y < lo {
+			lo = d.Y
+		}
+		if d.Y > hi {
+			hi = d.Y
+		}
+	}
+	for _, e := range sc.Rotation {
+		see(e.Sow)
+		see(e.Harvest)
+		see(e.WinOpen)
+		see(e.WinClose)
+		see(e.LatestHarv)
+	}
+	for _, e := range sc.Fert {
+		see(e.D)
+	}
+	for _, e := range sc.Till {
+		see(e.D)
+	}
+	for _, e := range sc.Irr {
+		see(e.D)
+	}
+	for _, e := range sc.GWSeries {
+		see(e.D)
+	}
+	see(sc.MeasDate)
+	if hi-lo > 98 || lo < 1901 {
+		return 0, 0, false
+	}
+	cLow = hi - 1999 // smallest admissible split: the latest year is 1999+split
+	cHigh = lo - 1900 // largest admissible split: the earliest year is 1900+split
+	if cLow < 1 {
+		cLow = 1
+	}
+	if cHigh > 99 {
+		cHigh = 99
+	}
+	return cLow, cHigh, cLow <= cHigh
 }
 
 func pickFloat(r *Rng, xs []float64) float64 { return xs[r.Intn(len(xs))] }
